@@ -22,8 +22,10 @@ claim("C01", "proof",
       "Theorem general_engine_eq_spec(_of_parsed): for EVERY input, every non-empty literal delimiter (also self-overlapping), every subset of "
       "-g -p -t -s -j -r -m --fallback-oob and every bounds list the parser can produce, the model of read_and_cut_str equals the abstract per-record "
       "specification (tokens by content, resolve, pieceText, joiner after every bound but the last) — output and status, never a panic; with C02 the fast "
-      "path too. Direct oracle: implementation vs the executed specification, bounded-exhaustive + random, through read_and_cut_str, the fast lane and "
-      "main's dispatch.",
+      "path too. End to end (Props/EndToEnd.lean, 44 theorems): tucMain (= parse_args + regex compilation + dispatch, the definition the K-argv differential ties to the "
+      "binary) on every canonical command line of field mode equals .run (specRun K.cfg input) — tuc_fields_eq_spec, and likewise --json, -M (admissible inputs, every "
+      "segmentation), -b, -c, -l (both algorithms) and tuc_reject_iff_conflict. Direct oracle: implementation vs the executed specification, bounded-exhaustive + random, through read_and_cut_str, the fast lane and "
+      "main's dispatch; the real binary against the library fed in small pieces on inputs up to 260 KB.",
       TIE,
       "Lean 4 theorems over a hand-written model + differential correspondence + executed abstract specification as oracle", "§4 C01")
 
